@@ -275,16 +275,16 @@ fn table_case<E: Elem>(c: &mut Ctx, spec: &Spec, rng: &mut Rng) {
 }
 
 /// Table of zero-sized elements with many duplicates: only counts can be compared.
-fn zst_table_case(c: &mut Ctx, rng: &mut Rng) {
+fn zst_table_case<ZT: Elem>(c: &mut Ctx, rng: &mut Rng) {
     use crate::ckalloc::CkAlloc;
     let n = *rng.pick(&[0usize, 1, 3, 7, 8, 15, 16, 17, 40, 100]);
     let removed = rng.usize_below(n / 2 + 1);
     // zero-sized elements are indistinguishable, so they all share one (lawful) hash
     let h = rng.next();
     let mk = || {
-        let mut t: hashbrown::HashTable<Z, CkAlloc> = hashbrown::HashTable::new_in(CkAlloc);
+        let mut t: hashbrown::HashTable<ZT, CkAlloc> = hashbrown::HashTable::new_in(CkAlloc);
         for _ in 0..n {
-            t.insert_unique(h, Z::make(0, 0), |_| h);
+            t.insert_unique(h, ZT::make(0, 0), |_| h);
         }
         for _ in 0..removed {
             if let Ok(o) = t.find_entry(h, |_| true) {
@@ -298,12 +298,12 @@ fn zst_table_case(c: &mut Ctx, rng: &mut Rng) {
         for mode in 0..4u8 {
             c.evaluations += 1;
             c.sig_parts(&[60, mode as u64, (len > 16) as u64, p as u64 % 3]);
-            let what = format!("HashTable<Z> n={} removed={} prefix {} mode {}", n, removed, p, mode);
+            let what = format!("HashTable<{}> n={} removed={} prefix {} mode {}", ZT::NAME, n, removed, p, mode);
             let t = mk();
             crate::check!(t.len() == len, "{}: len {} != {}", what, t.len(), len);
-            let got = drive(&what, t.iter(), &|_x: &&Z| (0, 0), len, p, mode, Some(&|i| i.clone()));
+            let got = drive(&what, t.iter(), &|_x: &&ZT| (0, 0), len, p, mode, Some(&|i| i.clone()));
             crate::check!(got.len() == len, "{}: iter yielded {} of {}", what, got.len(), len);
-            let got = drive(&what, t.into_iter(), &|_x: &Z| (0, 0), len, p, mode, None);
+            let got = drive(&what, t.into_iter(), &|_x: &ZT| (0, 0), len, p, mode, None);
             crate::check!(got.len() == len, "{}: into_iter yielded {} of {}", what, got.len(), len);
         }
     }
@@ -361,7 +361,8 @@ pub fn run(c: &mut Ctx) {
             6 => table_case::<T24>(c, &spec, rng),
             7 => table_case::<P8>(c, &spec, rng),
             _ => {
-                zst_table_case(c, rng);
+                zst_table_case::<Z>(c, rng);
+                zst_table_case::<crate::elem::Z8>(c, rng);
                 defaults(c);
             }
         }
